@@ -1,5 +1,5 @@
 """C03 — generated client emits exactly the HTTP request the operation describes."""
-import itertools, json
+import re, itertools, json
 import vlib
 from checks.c09 import vlib_corpus
 from specgen import op_spec
@@ -63,8 +63,12 @@ def cases(ctx):
     for k in range(0, 5 if not ctx.quick else 4):
         for t in itertools.product(PARTS, repeat=k):
             out.append({"op": "path.parse", "in": {"path": "/x/" + "".join(t) + "/y", "decl": [["p", "p_field"], ["q", "q"]]}})
-    for _ in range(300):
-        path = "".join(r.choice(["/", "a", "{p}", "{q}", "{", "}", "?", "-", "{pp}", "//"]) for _ in range(r.randint(0, 8)))
+    for _ in range(600):
+        path = "".join(r.choice(["/", "a", "{p}", "{q}", "{", "}", "?", "-", "{pp}", "//", "\u00e9", "\u20ac", "\U0001f600"]) for _ in range(r.randint(0, 8)))
+        if re.search(r"\{[^{}]*[^\x00-\x7f][^{}]*\}", path) or re.search(r"\{-+\}", path):
+            # a non-ASCII parameter NAME (its field name goes through any_ascii, outside the naming model's
+            # domain) or a name without any identifier character (field `_`: C09/C12 F12-3, not a request matter)
+            continue
         out.append({"op": "path.parse", "in": {"path": path, "decl": r.choice([[], [["p", "p2"]], [["p", "a"], ["p", "b"]], [["pp", "pp"], ["q", "r#type"]]])}})
     # K: url push/decode, all strings <= 2 (quick) / 3 (thorough) chars over the alphabet
     n = 2 if ctx.quick else 3
@@ -75,6 +79,12 @@ def cases(ctx):
     for _ in range(500 if ctx.quick else 5000):
         segs = ["".join(r.choice(CHARS) for _ in range(r.randint(0, 5))) for _ in range(r.randint(1, 3))]
         out.append({"op": "path.push", "in": {"base_path": r.choice(["/", "/v1", "/api/v2", "/v1/"]), "segs": [list(s.encode()) for s in segs]}})
+    # K: dot segments, also the ones that only appear once TAB/LF/CR are stripped, at every base path
+    dotted = [[46, 46, 10], [46, 10], [98], [46, 10, 46], [], [46], [46, 46], [13, 46, 9]]
+    for k in (1, 2) if ctx.quick else (1, 2, 3):
+        for t in itertools.product(dotted, repeat=k):
+            for b in ("/", "/v1", "/api/v2", "/v1/"):
+                out.append({"op": "path.push", "in": {"base_path": b, "segs": [list(x) for x in t]}})
     # E: operations through the whole generator
     for m in METHODS:
         out.append({"op": "client.method", "in": {"op": {"method": m, "path": "/a/{id}", "params": [{"name": "id", "in": "path", "level": "op", "type": "string"}], "body": None}}})
